@@ -145,10 +145,13 @@ def run_case(spec, ctx):
             break
     # library's own samples
     if worst <= t and not rg.has(E, lambda n: n["t"] == "point"):
+        from vf import core as _core
+        sub = _core.Ctx(ctx.prop, ctx.tier, ctx.seed, known=_core._NoKnown())
         try:
             with warnings.catch_warnings():
                 warnings.simplefilter("ignore")
-                P = D.sample_random_uniform(n=32, params=params)
+                with sub.lib("sample"):
+                    P = D.sample_random_uniform(n=32, params=params)
             if len(P) == 32 * max(k, 1):
                 Xl = P[:, [v for v, _ in svars]].as_tensor.double().numpy().reshape(max(k, 1), 32, -1)
                 for i in range(max(k, 1)):
@@ -158,7 +161,7 @@ def run_case(spec, ctx):
                         ctx.violation("enclosure", _blame(E, spec) + "|own-samples",
                                       f"own random sample lies {exc:.4g} outside the box {np.round(bb, 5).tolist()}")
                         break
-        except Exception:      # noqa: BLE001 - sampling problems are judged by C01
+        except (Exception, _core.CaseAborted):      # noqa: BLE001 - sampling problems are judged by C01
             ctx.event("own-sampling-failed(C01)")
     # tightness for primitives at a single parameter row
     if I["t"] in rg.LEAVES and I["t"] != "point" and k <= 1 and not per_row:
